@@ -110,8 +110,10 @@ def classify_call(ptypes, rtypes, args, spec, impl):
     """None if the call agrees, else (class, tolerant?) — tolerant: only because computed NaN bits were observed"""
     args_nan = any(G.is_nan(t, b) for t, b in zip(ptypes, args))
     args_inf = any(G.is_inf(t, b) for t, b in zip(ptypes, args))
-    if impl[0] in ("timeout",) or impl[0].startswith("crash-"):
-        return ("trap-as-" if spec[0] == "trap" and impl[0] != "timeout" else "") + impl[0]
+    if impl[0] == "timeout":
+        return "timeout"
+    if impl[0].startswith("crash-"):      # the process died (the signal is in the text, not in the signature)
+        return "trap-as-crash" if spec[0] == "trap" else "crash"
     if spec[0] == "trap":
         if impl[0] == "exc":
             return None if impl[1] in X.TRAP_NAMES else "trap-as-" + impl[1]
@@ -170,7 +172,13 @@ def evaluate(task, target, job, parsed, report, failed_ops=None):
     inst, outs, final = parsed
     name0 = task.get("name", task["id"])
     case0 = {"task": task["id"], "target": target}
+    if task.get("after") is not None:
+        case0["after"] = task["after"]
+    if task.get("twice"):
+        case0["twice"] = True
     allcalls = [[c[0], list(c[1])] for c in task["calls"]]
+    alllabels = [c[2] for c in task["calls"]]
+    case0["name"] = name0
     if inst[0] == "bad" or inst.startswith("inst-stuck"):
         raise RuntimeError(f"reference interpreter rejected task {task['id']}: {inst}")
     ji = job.inst or {"inst": "no-reply"}
@@ -236,7 +244,7 @@ def evaluate(task, target, job, parsed, report, failed_ops=None):
             elif task.get("stateless"):
                 case = dict(case0, module=d, calls=[[fi, list(args)]], label=label)
             else:
-                case = dict(case0, module=d, calls=allcalls[:k + 1], label=label)
+                case = dict(case0, module=d, calls=allcalls[:k + 1], labels=alllabels[:k + 1], label=label)
             report(f"{target}:{sig_label}:{sig_cls}", what, case, impl=impl, spec=list(spec))
         tolerant = tolerant or bool(spec[2])
         if impl[0] == "timeout" or impl[0].startswith("crash-"):
@@ -246,7 +254,7 @@ def evaluate(task, target, job, parsed, report, failed_ops=None):
     if complete and not task.get("nofinal") and final is not None and job.final is not None:
         tol = tolerant or final["nan"]
         jm = job.final.get("mem")
-        case = dict(case0, module=d, calls=allcalls, label=name0)
+        case = dict(case0, module=d, calls=allcalls, labels=alllabels, label=name0)
         if d.get("mem") is not None:
             cnt["calls"] += 1
             if not isinstance(jm, list) or len(jm) != 2 or not isinstance(jm[1], dict):
